@@ -859,6 +859,65 @@ func genScriptN(t *rapid.T, maxStmts int, forceParams int) Script {
 		} else {
 			sc.Body = append(sc.Body, Stmt{K: SReturn, E: bin("+", c.t, varRef(c.acc, c.t), g.expr(sc.Ret, g.depth("ret-d")))})
 		}
+	} else if g.intn(12, "tail-chain") == 0 {
+		// The function ends in an if / else-if / else chain whose blocks all return (no
+		// trailing return statement): the analyzer's return-on-all-paths check has to accept
+		// it. In half of these programs one block (any position, also nested) does not return.
+		sc.Body = append(sc.Body, g.stmtList(0, 3, "tail-before")...)
+		blocks := 0
+		var chain func(depth int) Stmt
+		retBlock := func(depth int) []Stmt {
+			blocks++
+			mark := len(g.vars)
+			defer func() { g.vars = g.vars[:mark] }()
+			b := g.stmtList(0, 1, "tail-blk")
+			if depth < 1 && g.intn(5, "tail-nest") == 0 {
+				blocks--
+				return append(b, chain(depth+1))
+			}
+			return append(b, Stmt{K: SReturn, E: g.expr(sc.Ret, g.depth("ret-d"))})
+		}
+		chain = func(depth int) Stmt {
+			s := Stmt{K: SIf, E: g.cond(), Body: retBlock(depth), HasElse: true}
+			for i, n := 0, []int{0, 1, 2, 2, 3}[g.intn(5, "tail-elifs")]; i < n; i++ {
+				s.Elifs = append(s.Elifs, Elif{C: g.cond(), Body: retBlock(depth)})
+			}
+			s.Else = retBlock(depth)
+			return s
+		}
+		tail := chain(0)
+		if g.chance(50, "tail-fall") {
+			// remove the return of the k-th block (pre-order)
+			k, seen := g.intn(blocks, "tail-fall-k"), 0
+			var strip func(s *Stmt) bool
+			stripBlock := func(b *[]Stmt) bool {
+				last := &(*b)[len(*b)-1]
+				if last.K == SIf {
+					return strip(last)
+				}
+				if seen == k {
+					*b = (*b)[:len(*b)-1]
+					seen++
+					return true
+				}
+				seen++
+				return false
+			}
+			strip = func(s *Stmt) bool {
+				if stripBlock(&s.Body) {
+					return true
+				}
+				for i := range s.Elifs {
+					if stripBlock(&s.Elifs[i].Body) {
+						return true
+					}
+				}
+				return stripBlock(&s.Else)
+			}
+			sc.Fall = strip(&tail)
+		}
+		sc.Body = append(sc.Body, tail)
+		g.cnt["constructed:function-ends-in-returning-if-chain"]++
 	} else {
 		sc.Body = append(sc.Body, g.stmtList(0, maxStmts, "body")...)
 		sc.Body = append(sc.Body, Stmt{K: SReturn, E: g.expr(sc.Ret, g.depth("ret-d"))})
